@@ -216,13 +216,16 @@ TEMPLATES = ["machine.a", "machine.a + machine.b", "machine.a if machine.b > 5 e
              "device.counters.c.value", "device.counters.c.value + machine.a", "machine.a == 1 and machine.b == 6",
              "machine.a == 1 or current_player.v > 7", "(machine.a, machine.b)[0]", "machine['a']",
              "machine.b if machine.a == 1 else current_player.v", "not machine.a == 2", "players[1].v",
-             "machine.a + x", "-machine.a", "machine.a ** 2 % 3"]
+             "machine.a + x", "-machine.a", "machine.a ** 2 % 3",
+             # operands that are type-incompatible until a variable gets a value
+             "machine.a > machine.u", "machine.u < machine.a", "(machine.u + 1) if machine.a == 3 else 0",
+             "machine.b if machine.a == 3 else (machine.u + 1)", "machine.a == 1 or machine.u > 2"]
 
 
 class FreshDriver(MachineDriver):
     machine_name = "c16"
-    CHANGES = [("a", 1), ("a", 2), ("b", 6), ("s", 1), ("s", 3), ("v", 8), ("v", 7), ("c", 1), ("c", 2),
-               ("add_player",), ("end_turn",)]
+    CHANGES = [("a", 1), ("a", 2), ("b", 6), ("s", 1), ("s", 3), ("v", 8), ("v", 7), ("c", 1), ("c", 2), ("u", 1), ("u", 5),
+               ("rm", "b"), ("add_player",), ("end_turn",)]
 
     def setup(self):
         fakegame.install(self.m)
@@ -253,7 +256,8 @@ class FreshDriver(MachineDriver):
         g = self.m.game
         players = [ns(v=p["v"]) for p in g.player_list] if g else []
         cur = players[g.player.index] if g and g.player else None
-        env = {"x": 2, "machine": ns(a=self.m.variables.get_machine_var("a"), b=self.m.variables.get_machine_var("b")),
+        env = {"x": 2, "machine": ns(a=self.m.variables.get_machine_var("a"), b=self.m.variables.get_machine_var("b"),
+                                     u=self.m.variables.get_machine_var("u")),
                "settings": ns(s=self.m.settings.get_setting_value("s")), "players": players,
                "device": ns(counters=ns(c=ns(value=self.m.counters["c"].value)))}
         env["machine"].__dict__["__getitem__"] = None
@@ -269,8 +273,10 @@ class FreshDriver(MachineDriver):
     def do_op(self, op):
         m = self.m
         self.trigged = False
-        if op[0] == "a" or op[0] == "b":
+        if op[0] in ("a", "b", "u"):
             m.variables.set_machine_var(op[0], op[1])
+        elif op[0] == "rm":
+            m.variables.remove_machine_var(op[1])
         elif op[0] == "s":
             m.settings.set_setting_value("s", op[1])
         elif op[0] == "v":
@@ -291,9 +297,8 @@ class FreshDriver(MachineDriver):
             self.trigged = True
 
     def py(self, src, env):
-        class M(dict):
-            pass
-        genv = dict(env)
+        """Python's value of the expression with all operands of and/or evaluated (the statement's semantics)."""
+        import ast
         mach = env["machine"]
 
         class MachineView:
@@ -302,10 +307,37 @@ class FreshDriver(MachineDriver):
 
             def __getitem__(s, k):
                 return getattr(mach, k)
+        genv = dict(env)
         genv["machine"] = MachineView()
+
+        def ev(node):
+            if isinstance(node, ast.BoolOp):
+                vals = [ev(v) for v in node.values]        # every operand is evaluated
+                res = vals[0]
+                for v in vals[1:]:
+                    res = (res and v) if isinstance(node.op, ast.And) else (res or v)
+                return res
+            if isinstance(node, ast.IfExp):
+                return ev(node.body) if ev(node.test) else ev(node.orelse)
+            if isinstance(node, ast.UnaryOp):
+                v = ev(node.operand)
+                tree = ast.Expression(ast.UnaryOp(node.op, ast.Name("_v", ast.Load())))
+                return eval(compile(ast.fix_missing_locations(tree), "<t>", "eval"), {"__builtins__": {}}, {"_v": v})   # noqa: S307
+            if isinstance(node, ast.BinOp):
+                l, r = ev(node.left), ev(node.right)
+                tree = ast.Expression(ast.BinOp(ast.Name("_l", ast.Load()), node.op, ast.Name("_r", ast.Load())))
+                return eval(compile(ast.fix_missing_locations(tree), "<t>", "eval"), {"__builtins__": {}}, {"_l": l, "_r": r})   # noqa: S307
+            if isinstance(node, ast.Compare):
+                l, r = ev(node.left), ev(node.comparators[0])
+                tree = ast.Expression(ast.Compare(ast.Name("_l", ast.Load()), node.ops, [ast.Name("_r", ast.Load())]))
+                return eval(compile(ast.fix_missing_locations(tree), "<t>", "eval"), {"__builtins__": {}}, {"_l": l, "_r": r})   # noqa: S307
+            if isinstance(node, ast.Tuple):
+                return tuple(ev(x) for x in node.elts)
+            # leaves: names, attribute / index access, constants -> Python itself
+            return eval(compile(ast.fix_missing_locations(ast.Expression(node)), "<t>", "eval"), {"__builtins__": {}}, genv)   # noqa: S307
         try:
-            v = eval(src, {"__builtins__": {}}, genv)     # noqa: S307
-        except (NameError, IndexError, AttributeError, TypeError):
+            v = ev(ast.parse(src, mode="eval").body)
+        except (NameError, IndexError, AttributeError, TypeError, KeyError):
             return DEFAULT
         return DEFAULT if v is None else v
 
